@@ -8,10 +8,12 @@ import (
 	"golang.org/x/tools/go/ssa"
 )
 
-// If-conversion of small pure regions (DESIGN §3.5): an `If` on a symbolic condition whose
-// arms are straight-line blocks without calls, allocations or panics is executed on both
-// arms; stores and Phi values are merged with ite(cond, ·, ·). This is a case split moved
-// into the term, so it is sound; -nomerge switches it off to cross-check a verdict.
+// If-conversion of small pure regions (DESIGN §3.5). An `If` on a symbolic condition whose
+// region up to its immediate post-dominator is acyclic and contains only pure operations,
+// loads, and stores of float/bool scalars (no call, allocation, panic) is executed on all
+// arms at once: every block gets a guard term, stores become ite(guard, new, old) and Phi
+// values ite-chains over the incoming edges. This is a case split moved into the term, so
+// it is sound; -nomerge switches it off to cross-check a verdict.
 
 type specAbort struct{}
 
@@ -25,15 +27,12 @@ type specCtx struct {
 	undo  []undoEntry
 }
 
-const maxArmInstrs = 40
+const (
+	maxRegionInstrs = 160
+	maxRegionBlocks = 14
+)
 
-func simpleArm(b *ssa.BasicBlock) bool {
-	if b == nil {
-		return true
-	}
-	if len(b.Instrs) > maxArmInstrs {
-		return false
-	}
+func simpleBlock(b *ssa.BasicBlock) bool {
 	for i, ins := range b.Instrs {
 		switch x := ins.(type) {
 		case *ssa.BinOp, *ssa.FieldAddr, *ssa.IndexAddr, *ssa.Field, *ssa.Index, *ssa.ChangeType, *ssa.Extract, *ssa.DebugRef, *ssa.Lookup, *ssa.Phi:
@@ -48,7 +47,7 @@ func simpleArm(b *ssa.BasicBlock) bool {
 			default:
 				return false
 			}
-		case *ssa.Jump:
+		case *ssa.Jump, *ssa.If:
 			if i != len(b.Instrs)-1 {
 				return false
 			}
@@ -56,8 +55,158 @@ func simpleArm(b *ssa.BasicBlock) bool {
 			return false
 		}
 	}
-	_, ok := b.Instrs[len(b.Instrs)-1].(*ssa.Jump)
-	return ok
+	return true
+}
+
+type regionInfo struct {
+	ok    bool
+	join  *ssa.BasicBlock
+	order []*ssa.BasicBlock // topological order of the region's blocks (without the head and the join)
+}
+
+type fnCFG struct {
+	ipdom   map[*ssa.BasicBlock]*ssa.BasicBlock
+	regions map[*ssa.BasicBlock]*regionInfo
+}
+
+// postDominators computes immediate post-dominators with the iterative set algorithm.
+func postDominators(fn *ssa.Function) map[*ssa.BasicBlock]*ssa.BasicBlock {
+	n := len(fn.Blocks)
+	words := (n + 63) / 64
+	full := make([]uint64, words)
+	for i := 0; i < n; i++ {
+		full[i/64] |= 1 << uint(i%64)
+	}
+	pd := make([][]uint64, n)
+	for i, b := range fn.Blocks {
+		pd[i] = make([]uint64, words)
+		if len(b.Succs) == 0 {
+			pd[i][i/64] |= 1 << uint(i%64)
+		} else {
+			copy(pd[i], full)
+		}
+	}
+	changed := true
+	for changed {
+		changed = false
+		for i := n - 1; i >= 0; i-- {
+			b := fn.Blocks[i]
+			if len(b.Succs) == 0 {
+				continue
+			}
+			nw := make([]uint64, words)
+			copy(nw, full)
+			for _, s := range b.Succs {
+				for w := range nw {
+					nw[w] &= pd[s.Index][w]
+				}
+			}
+			nw[i/64] |= 1 << uint(i%64)
+			for w := range nw {
+				if nw[w] != pd[i][w] {
+					changed = true
+				}
+			}
+			pd[i] = nw
+		}
+	}
+	count := func(s []uint64) int {
+		c := 0
+		for _, w := range s {
+			for ; w != 0; w &= w - 1 {
+				c++
+			}
+		}
+		return c
+	}
+	ip := map[*ssa.BasicBlock]*ssa.BasicBlock{}
+	for i, b := range fn.Blocks {
+		ci := count(pd[i])
+		for j := 0; j < n; j++ {
+			if j != i && pd[i][j/64]&(1<<uint(j%64)) != 0 && count(pd[j]) == ci-1 {
+				ip[b] = fn.Blocks[j]
+				break
+			}
+		}
+	}
+	return ip
+}
+
+func (in *Interp) cfg(fn *ssa.Function) *fnCFG {
+	if c, ok := in.cfgs[fn]; ok {
+		return c
+	}
+	c := &fnCFG{ipdom: postDominators(fn), regions: map[*ssa.BasicBlock]*regionInfo{}}
+	if in.cfgs == nil {
+		in.cfgs = map[*ssa.Function]*fnCFG{}
+	}
+	in.cfgs[fn] = c
+	return c
+}
+
+func (in *Interp) region(b *ssa.BasicBlock) *regionInfo {
+	c := in.cfg(b.Parent())
+	if r, ok := c.regions[b]; ok {
+		return r
+	}
+	r := &regionInfo{}
+	c.regions[b] = r
+	join := c.ipdom[b]
+	if join == nil || join == b {
+		return r
+	}
+	// collect blocks reachable from b before join; reject cycles
+	state := map[*ssa.BasicBlock]int{} // 1 = on stack, 2 = done
+	var post []*ssa.BasicBlock
+	instrs := 0
+	bad := false
+	var dfs func(x *ssa.BasicBlock)
+	dfs = func(x *ssa.BasicBlock) {
+		if bad {
+			return
+		}
+		if x == join {
+			return
+		}
+		if x == b {
+			bad = true // back edge to the head: a loop
+			return
+		}
+		switch state[x] {
+		case 1:
+			bad = true
+			return
+		case 2:
+			return
+		}
+		state[x] = 1
+		if !simpleBlock(x) || len(x.Succs) == 0 {
+			bad = true
+			return
+		}
+		instrs += len(x.Instrs)
+		if instrs > maxRegionInstrs || len(state) > maxRegionBlocks {
+			bad = true
+			return
+		}
+		for _, s := range x.Succs {
+			dfs(s)
+		}
+		state[x] = 2
+		post = append(post, x)
+	}
+	for _, s := range b.Succs {
+		dfs(s)
+	}
+	if bad {
+		return r
+	}
+	for i := len(post) - 1; i >= 0; i-- {
+		r.order = append(r.order, post[i])
+	}
+	r.join = join
+	r.ok = true
+	return r
 }
 
 func (in *Interp) tryIfConvert(fr *frame, b *ssa.BasicBlock, c *smt.Term) (*ssa.BasicBlock, bool) {
@@ -67,27 +216,21 @@ func (in *Interp) tryIfConvert(fr *frame, b *ssa.BasicBlock, c *smt.Term) (*ssa.
 	if _, ok := in.P.known(c); ok {
 		return nil, false
 	}
-	T, F := b.Succs[0], b.Succs[1]
-	var armT, armF, join *ssa.BasicBlock
-	single := func(x *ssa.BasicBlock) bool { return len(x.Preds) == 1 && x.Preds[0] == b }
-	endsIn := func(x, target *ssa.BasicBlock) bool {
-		return len(x.Succs) == 1 && x.Succs[0] == target
-	}
-	switch {
-	case T != F && single(T) && single(F) && len(T.Succs) == 1 && len(F.Succs) == 1 && T.Succs[0] == F.Succs[0]:
-		armT, armF, join = T, F, T.Succs[0]
-	case T != F && single(T) && endsIn(T, F):
-		armT, join = T, F
-	case T != F && single(F) && endsIn(F, T):
-		armF, join = F, T
-	default:
+	reg := in.region(b)
+	if !reg.ok {
 		return nil, false
 	}
-	if join == b || !simpleArm(armT) || !simpleArm(armF) {
-		return nil, false
-	}
+	ctx := in.C
 	sp := &specCtx{}
 	in.spec = sp
+	type edge struct{ from, to *ssa.BasicBlock }
+	edges := map[edge]*smt.Term{}
+	addEdge := func(f, t *ssa.BasicBlock, g *smt.Term) {
+		if old, ok := edges[edge{f, t}]; ok {
+			g = ctx.Or(old, g)
+		}
+		edges[edge{f, t}] = g
+	}
 	ok := func() (ok bool) {
 		defer func() {
 			if r := recover(); r != nil {
@@ -100,59 +243,99 @@ func (in *Interp) tryIfConvert(fr *frame, b *ssa.BasicBlock, c *smt.Term) (*ssa.
 				}
 			}
 		}()
-		runArm := func(arm *ssa.BasicBlock, guard *smt.Term) {
-			if arm == nil {
-				return
+		addEdge(b, b.Succs[0], c)
+		addEdge(b, b.Succs[1], ctx.Not(c))
+		phiVals := func(blk *ssa.BasicBlock) ([]*ssa.Phi, []Value, *smt.Term, bool) {
+			var phis []*ssa.Phi
+			for _, ins := range blk.Instrs {
+				if ph, isPhi := ins.(*ssa.Phi); isPhi {
+					phis = append(phis, ph)
+				} else {
+					break
+				}
+			}
+			guard := ctx.False
+			vals := make([]Value, len(phis))
+			first := true
+			for i, p := range blk.Preds {
+				g, has := edges[edge{p, blk}]
+				if !has || (g.Op == smt.OConstB && !g.B) {
+					continue
+				}
+				// a predecessor may appear twice in Preds (both arms of an If): use the first slot's edge once
+				dup := false
+				for j := 0; j < i; j++ {
+					if blk.Preds[j] == p {
+						dup = true
+					}
+				}
+				if dup {
+					return nil, nil, nil, false
+				}
+				guard = ctx.Or(guard, g)
+				for k, ph := range phis {
+					v := in.get(fr, ph.Edges[i])
+					if first {
+						vals[k] = v
+					} else {
+						m, mok := in.iteValue(g, v, vals[k])
+						if !mok {
+							return nil, nil, nil, false
+						}
+						vals[k] = m
+					}
+				}
+				first = false
+			}
+			return phis, vals, guard, true
+		}
+		for _, blk := range reg.order {
+			phis, vals, guard, pok := phiVals(blk)
+			if !pok {
+				return false
+			}
+			if guard.Op == smt.OConstB && !guard.B {
+				continue // unreachable under the current (partly concrete) conditions
+			}
+			for k, ph := range phis {
+				fr.env[ph] = vals[k]
 			}
 			sp.guard = guard
-			for _, ins := range arm.Instrs {
+			for _, ins := range blk.Instrs[len(phis):] {
 				switch x := ins.(type) {
 				case *ssa.Jump:
-				case *ssa.Phi:
-					fr.env[x] = in.get(fr, x.Edges[0])
+					addEdge(blk, blk.Succs[0], guard)
+				case *ssa.If:
+					switch q := in.get(fr, x.Cond).(type) {
+					case bool:
+						if q {
+							addEdge(blk, blk.Succs[0], guard)
+						} else {
+							addEdge(blk, blk.Succs[1], guard)
+						}
+					case *smt.Term:
+						if k, known := in.P.known(q); known {
+							if k {
+								addEdge(blk, blk.Succs[0], guard)
+							} else {
+								addEdge(blk, blk.Succs[1], guard)
+							}
+						} else {
+							addEdge(blk, blk.Succs[0], ctx.And(guard, q))
+							addEdge(blk, blk.Succs[1], ctx.And(guard, ctx.Not(q)))
+						}
+					}
 				default:
 					in.step(fr, ins)
 				}
 			}
 		}
-		runArm(armT, c)
-		runArm(armF, in.C.Not(c))
-		// Phi nodes of the join block
-		predT, predF := armT, armF
-		if predT == nil {
-			predT = b
-		}
-		if predF == nil {
-			predF = b
-		}
-		it, iff := -1, -1
-		for i, p := range join.Preds {
-			if p == predT && it < 0 {
-				it = i
-			} else if p == predF {
-				iff = i
-			}
-		}
-		if predT == predF {
+		phis, vals, _, pok := phiVals(reg.join)
+		if !pok {
 			return false
 		}
-		var phis []*ssa.Phi
-		var vals []Value
-		for _, ins := range join.Instrs {
-			ph, isPhi := ins.(*ssa.Phi)
-			if !isPhi {
-				break
-			}
-			vt, vf := in.get(fr, ph.Edges[it]), in.get(fr, ph.Edges[iff])
-			m, mok := in.iteValue(c, vt, vf)
-			if !mok {
-				return false
-			}
-			phis = append(phis, ph)
-			vals = append(vals, m)
-		}
-		for i, ph := range phis {
-			fr.env[ph] = vals[i]
+		for k, ph := range phis {
+			fr.env[ph] = vals[k]
 		}
 		return true
 	}()
@@ -166,9 +349,7 @@ func (in *Interp) tryIfConvert(fr *frame, b *ssa.BasicBlock, c *smt.Term) (*ssa.
 	}
 	in.P.Merged++
 	fr.phisDone = true
-	// make the predecessor look like one of the arms so that loop accounting still works
-	fr.prev = b
-	return join, true
+	return reg.join, true
 }
 
 // iteValue merges two values under a condition; only float/bool leaves may differ.
@@ -227,8 +408,14 @@ func (in *Interp) iteValue(c *smt.Term, a, b Value) (Value, bool) {
 			return x, true
 		}
 	case Pointer:
-		if eq, ok := in.equal(a, b).(bool); ok && eq {
-			return a, true
+		if _, isP := b.(Pointer); isP {
+			if eq, ok := in.equal(a, b).(bool); ok && eq {
+				return a, true
+			}
+		}
+	case nil:
+		if b == nil {
+			return nil, true
 		}
 	}
 	return nil, false
@@ -249,7 +436,7 @@ func (in *Interp) rawStore(p Pointer, v Value) {
 	}
 }
 
-// guardedStore is used while an arm is executed speculatively.
+// guardedStore is used while a region is executed speculatively.
 func (in *Interp) guardedStore(p Pointer, v Value) {
 	sp := in.spec
 	if p.O == nil {
